@@ -70,6 +70,13 @@ FixAdd(a, k) == LET f == a[2] + k
 FixLeqTol(a, b, k) == FixLeq(a, FixAdd(b, k))
 \* |a - b| <= k nano
 FixNear(a, b, k) == FixLeqTol(a, b, k) /\ FixLeqTol(b, a, k)
+\* |a - b| in nano units, capped at Nano
+FixDist(a, b) ==
+    IF a[1] = b[1] THEN Abs(a[2] - b[2])
+    ELSE LET hi == IF a[1] > b[1] THEN a ELSE b
+             lo == IF a[1] > b[1] THEN b ELSE a
+             d  == (Nano - lo[2]) + hi[2]
+         IN  IF hi[1] - lo[1] > 1 \/ d > Nano THEN Nano ELSE d
 FixZero == <<0, 0>>
 FixOne  == <<1, 0>>
 IsFix(x) == /\ x \in Seq(Int) /\ Len(x) = 2 /\ x[1] >= 0 /\ x[2] >= 0 /\ x[2] < Nano
